@@ -632,3 +632,25 @@ func prodClientRuns(env core.Env, rep *core.Report, job *int) {
 		}
 	}
 }
+
+// replayC12 re-executes one recorded operation sequence (scripted client) and checks every step.
+func replayC12(env core.Env, rep *core.Report) {
+	var rf struct {
+		Replay struct {
+			Max int   `json:"max_tries"`
+			Ops []wop `json:"ops"`
+		} `json:"replay"`
+	}
+	core.ReadJSON(env.Replay, &rf)
+	rep.Bound = "replay of " + env.Replay
+	path := core.NewStoreFile()
+	w := openWorld(path, rf.Replay.Max, nil)
+	m := wmodel{Max: rf.Replay.Max}
+	for i, o := range rf.Replay.Ops {
+		st := &stepper{rep: rep, hist: rf.Replay.Ops[:i+1], max: rf.Replay.Max, check: true, urls: hookURLs}
+		w = st.apply(w, &m, o)
+		rep.Transitions++
+	}
+	rep.Executions, rep.Evaluations, rep.States = 1, 1, 1
+	w.rig.Close()
+}
